@@ -391,6 +391,14 @@ func AddressFromStorage(s AddressStorage) (*Address, error) {
 		return nil, fmt.Errorf("failed to parse private key: %w", err)
 	}
 
+	// Check the key sizes first, as building a key pair from keys of other sizes panics.
+	if len(privKey) != ed25519.PrivateKeySize {
+		return nil, fmt.Errorf("invalid private key size: %d (should be %d)", len(privKey), ed25519.PrivateKeySize)
+	}
+	if len(pubKey) != ed25519.PublicKeySize {
+		return nil, fmt.Errorf("invalid public key size: %d (should be %d)", len(pubKey), ed25519.PublicKeySize)
+	}
+
 	addr := &Address{
 		PublicAddress: PublicAddress{
 			IP:        ip,
@@ -404,12 +412,6 @@ func AddressFromStorage(s AddressStorage) (*Address, error) {
 			ed25519.PrivateKey(privKey),
 			ed25519.PublicKey(pubKey),
 		),
-	}
-	if len(addr.PrivateKey) != ed25519.PrivateKeySize {
-		return nil, fmt.Errorf("invalid private key size: %d (should be %d)", len(addr.PrivateKey), ed25519.PrivateKeySize)
-	}
-	if len(addr.PublicKey) != ed25519.PublicKeySize {
-		return nil, fmt.Errorf("invalid public key size: %d (should be %d)", len(addr.PublicKey), ed25519.PublicKeySize)
 	}
 	if !addr.Hash.IsValid() {
 		return nil, errors.New("invalid address hash algorithm")
@@ -501,6 +503,11 @@ func (addr *PublicAddress) VerifyAddress() error {
 	// Check the key size, as using keys of other sizes panics.
 	if len(addr.PublicKey) != ed25519.PublicKeySize {
 		return fmt.Errorf("invalid public key size: %d (should be %d)", len(addr.PublicKey), ed25519.PublicKeySize)
+	}
+	// The key is used as an Ed25519 key whatever the type says: accept no other
+	// type name, also not with an address that is derived from that name.
+	if addr.Type != crop.KeyPairTypeEd25519 {
+		return fmt.Errorf("unsupported key type %q", SafeString(string(addr.Type)))
 	}
 
 	return VerifyAddressKey(addr.IP, addr.Hash, addr.Type, addr.PublicKey, addr.Easing)
